@@ -442,6 +442,13 @@ class Executor(EvalMixin, StmtMixin):
         callee = self.world.contracts.get(qn)
         if self.contract is not None and qn in self.contract.callee_contracts:
             callee = self.contract.callee_contracts[qn]
+        if callee is not None and callee is not self.contract and callee.yields and 'item' in callee.yields:
+            # calling a generator function runs nothing; the for loop that
+            # consumes it uses its contract (yields['item']: what is known of
+            # each yielded value, proved at the generator's yield statements)
+            if callee.modifies:
+                raise ContractError('%s: a generator consumed through its contract must not modify the heap' % qn)
+            return builtins_impl.VGenCall(callee, fn, list(args), dict(kwargs))
         inline = (self.contract is not None and qn in self.contract.inline) or qn in self.world.inline \
             or fn.env is not None
         if callee is not None and not (inline and callee is not self.contract) :
